@@ -885,3 +885,25 @@ def no_process_dependent_sources(res, dirs, what):
         add_direct(res, f"{rel}::{cd.name}:frame:no-process-dependent-source", "frame", not bad, where=rel, detail="; ".join(bad),
                    note=f"{cd.name} ({what}): no hash() / id() / set order / clock / OS entropy in any method", model={"reads": bad} if bad else None)
     return n
+
+
+def process_group_queries_not_memoised(res):
+    """get_rank / get_world_size / is_distributed answer for the process group of the moment: a memoised answer taken before
+    init_process_group (or in another process) gives samplers a rank and a world size that do not belong together"""
+    rel = "kappadata/utils/distributed.py"
+    try:
+        tree = ast.parse(open(os.path.join(REPO, rel)).read())
+    except (OSError, SyntaxError) as ex:
+        add_direct(res, f"{rel}:frame:process-group-queries-not-memoised", "frame", False, where=rel, detail=str(ex))
+        return
+    bad = []
+    module_state = {t.id for n in tree.body if isinstance(n, ast.Assign) for t in n.targets if isinstance(t, ast.Name)}
+    for fn in [n for n in ast.walk(tree) if isinstance(n, ast.FunctionDef)]:
+        for d in fn.decorator_list:
+            if "cache" in ast.unparse(d).lower():
+                bad.append(f"{rel}:{fn.lineno} {fn.name} is decorated with {ast.unparse(d)}")
+        for n in ast.walk(fn):
+            if isinstance(n, ast.Global):
+                bad.append(f"{rel}:{n.lineno} {fn.name} keeps its answer in module state ({', '.join(n.names)})")
+    add_direct(res, f"{rel}:frame:process-group-queries-not-memoised", "frame", not bad, where=rel, detail="; ".join(bad),
+               note="every query function asks torch.distributed anew", model={"memoised": bad} if bad else None)
